@@ -788,6 +788,48 @@ func precedes(a ssa.Instruction, b ssa.Instruction) bool {
 }
 
 func runC18(c *Ctx) {
+	c.R.Rule("A-evict", "blockStore.openFile, when it closes the least recently used block file, removes exactly that file from both bookkeeping maps: the key deleted from openBlockFiles and from fileNumToLRUElem is the key under which the closed file was looked up (otherwise a closed handle stays cached and every later read of that file fails)")
+	if of := c.fn(ffl, "blockStore", "openFile"); of != nil {
+		var closedKey ssa.Value
+		for _, call := range ssau.CallsIn(of, namedCall("Close")) {
+			// file.Close() of openBlockFiles[K].file
+			recv := call.Common().Value
+			if !call.Common().IsInvoke() {
+				if len(call.Common().Args) == 0 {
+					continue
+				}
+				recv = call.Common().Args[0]
+			}
+			ssau.DependsOn(recv, func(x ssa.Value) bool {
+				if lk, ok := x.(*ssa.Lookup); ok && ssau.IsFieldOf(ssau.Unwrap(lk.X), "blockStore", "openBlockFiles") && closedKey == nil {
+					closedKey = ssau.Unwrap(lk.Index)
+				}
+				return false
+			})
+		}
+		nDel, okDel := 0, closedKey != nil
+		for _, b := range of.Blocks {
+			for _, in := range b.Instrs {
+				ci, ok := in.(ssa.CallInstruction)
+				if !ok {
+					continue
+				}
+				bi, ok := ci.Common().Value.(*ssa.Builtin)
+				if !ok || bi.Name() != "delete" {
+					continue
+				}
+				m := ssau.Unwrap(ci.Common().Args[0])
+				if !ssau.IsFieldOf(m, "blockStore", "openBlockFiles") && !ssau.IsFieldOf(m, "blockStore", "fileNumToLRUElem") {
+					continue
+				}
+				nDel++
+				if ssau.Unwrap(ci.Common().Args[1]) != closedKey {
+					okDel = false
+				}
+			}
+		}
+		c.R.Check("A-evict", "openFile|evicted file removed under its own number", okDel && nDel == 2, c.pos(of.Pos()), fmt.Sprintf("%d deletions from the open-file maps; all keyed by the number of the file that was closed: %v", nDel, okDel))
+	}
 	c.R.Rule("A-region", "every sibling that serves a block region (fetchPendingRegion, FetchBlockRegion, FetchBlockRegions) reaches its use of the region (slice expression, readBlockRegion call, fetch-list append) only through the false arms of both endOffset < region.Offset (wrap) and endOffset > block length, with endOffset = region.Offset + region.Len")
 	c.R.Rule("G-checksum", "blockStore.readBlock returns data only through the equal arm of the stored-vs-computed checksum comparison and the network comparison; the ReadAt error is checked")
 	isEnd := func(v ssa.Value) bool {
